@@ -423,9 +423,31 @@ htp_status_t htp_connp_RES_BODY_CHUNKED_LENGTH(htp_connp_t *connp) {
             // empty chunk length line, lets try to continue
             if (connp->out_chunked_length == -1004) {
                 connp->out_current_consume_offset = connp->out_current_read_offset;
+                // The empty line is done with, also when it was assembled in the buffer.
+                htp_connp_res_clear_buffer(connp);
                 continue;
             }
             if (connp->out_chunked_length < 0) {
+                // Not a chunk length: the line is body data of a response that is
+                // identity-coded up to the close. It will be counted as such.
+                connp->out_tx->response_message_len -= len;
+
+                connp->out_state = htp_connp_RES_BODY_IDENTITY_STREAM_CLOSE;
+                connp->out_tx->response_transfer_coding = HTP_CODING_IDENTITY;
+
+                htp_log(connp, HTP_LOG_MARK, HTP_LOG_ERROR, 0,
+                        "Response chunk encoding: Invalid chunk length: %"PRId64"",
+                        connp->out_chunked_length);
+
+                if (connp->out_buf != NULL) {
+                    // The line was assembled in the buffer (part of it came in earlier
+                    // data chunks and cannot be unread): hand it over now and release
+                    // the buffer, so that it is not seen again when the stream closes.
+                    htp_status_t rc = htp_tx_res_process_body_data_ex(connp->out_tx, data, len);
+                    htp_connp_res_clear_buffer(connp);
+                    return rc;
+                }
+
                 // reset out_current_read_offset so htp_connp_RES_BODY_IDENTITY_STREAM_CLOSE
                 // doesn't miss the first bytes
 
@@ -435,12 +457,6 @@ htp_status_t htp_connp_RES_BODY_CHUNKED_LENGTH(htp_connp_t *connp) {
                     connp->out_current_read_offset -= len;
                 }
 
-                connp->out_state = htp_connp_RES_BODY_IDENTITY_STREAM_CLOSE;
-                connp->out_tx->response_transfer_coding = HTP_CODING_IDENTITY;
-
-                htp_log(connp, HTP_LOG_MARK, HTP_LOG_ERROR, 0,
-                        "Response chunk encoding: Invalid chunk length: %"PRId64"",
-                        connp->out_chunked_length);
                 return HTP_OK;
             }
             htp_connp_res_clear_buffer(connp);
